@@ -63,8 +63,15 @@ NewProfile == [lat |-> <<>>, size |-> <<>>, obs |-> 0, claimed |-> -1, measured 
 Capped(q, x) == Append(IF Len(q) >= MaxHistory THEN Tail(q) ELSE q, x)
 ProfRespond(pr, lat, size) == [pr EXCEPT !.lat = Capped(@, lat), !.size = Capped(@, size), !.obs = @ + 1]     \* record_response
 Avg(q) == SumSeq(q) \div Len(q)                  \* average_latency (whole microseconds) / average_response_size; q # <<>>
+RECURSIVE ProfAfter(_, _, _, _)
+ProfAfter(pr, lats, sizes, i) == IF i > Len(lats) THEN pr ELSE ProfAfter(ProfRespond(pr, lats[i], sizes[i]), lats, sizes, i + 1)   \* a run of responses
+VoteLen(nv) == MinOf2(nv, MaxHistory)            \* record_vote keeps the last MaxHistory hashes
 HasAsym(pr) == pr.claimed >= 0 /\ pr.measured > 0                                             \* resource_asymmetry is Some
 AsymPm(pr) == RoundDiv(pr.claimed * 1000, pr.measured)                                        \* the ratio in per-mille
+
+(* ---- SybilDetectorConfig::default(): 10 joins per /24 or /48 within an hour, 5 ids per prefix, similarity 0.95, asymmetry 3.0,
+        records for 24 hours, 10 observations (windows in seconds) ---- *)
+DefaultCfgSecs == [bthr |-> 10, win_s |-> 3600, pthr |-> 5, sim |-> 950, asym |-> 3000, age_s |-> 86400, minobs |-> 10]
 
 (* ---- the empty detector ---- *)
 Empty == [joins |-> [x \in {} |-> <<>>], pfx |-> [x \in {} |-> {}], prof |-> [x \in {} |-> NewProfile], known |-> {}, groups |-> <<>>]
